@@ -3,6 +3,7 @@ SPECIFICATION TSpec
 CONSTANTS
   ShardFailureFix = FALSE
   CursorFix = FALSE
+  CursorRawDecode = FALSE
   NullMemberFix = FALSE
   InputSets <- NoInputs
 CHECK_DEADLOCK FALSE
